@@ -148,4 +148,180 @@ example : (setSegmentation [(7, [9, 0]), (2, []), (4, [])] [9, 7, -1, 4, 0, 2, 9
 /-- a label that does not occur in the table is outside the function's domain (out-of-range access in the C++) -/
 example : setSegmentation [(0, [])] [3] = none := by decide
 
+/-! ### get ∘ set -/
+
+/-- the labels `0 … b-1` in ascending order, each as often as it occurs in `l` -/
+def sortedUpTo (l : List Nat) (b : Nat) : List Int :=
+  (List.range b).flatMap fun p => List.replicate (cntEq l p) (p : Int)
+
+theorem sortedUpTo_succ (l : List Nat) (b : Nat) :
+    sortedUpTo l (b + 1) = sortedUpTo l b ++ List.replicate (cntEq l b) (b : Int) := by
+  simp [sortedUpTo, List.range_succ, List.flatMap_append]
+
+theorem sortedUpTo_length (l : List Nat) (b : Nat) : (sortedUpTo l b).length = cntLess l b := by
+  induction b with
+  | zero => simp [sortedUpTo, cntLess_zero]
+  | succ b ih => rw [sortedUpTo_succ, List.length_append, ih, List.length_replicate, cntLess_succ]
+
+/-- painting exactly the middle part of a list -/
+theorem paint_middle (A X B : List Int) (v : Int) :
+    paint (A ++ X ++ B) A.length X.length v = A ++ List.replicate X.length v ++ B := by
+  unfold paint
+  apply List.ext_getElem
+  · simp
+  · intro i h1 h2
+    simp only [List.getElem_mapIdx]
+    by_cases ha : i < A.length
+    · rw [if_neg (by omega)]
+      simp [List.getElem_append_left, ha]
+    · by_cases hx : i < A.length + X.length
+      · rw [if_pos ⟨by omega, hx⟩]
+        rw [List.getElem_append_left (by simp; omega), List.getElem_append_right (by omega)]
+        simp
+      · rw [if_neg (by omega)]
+        rw [List.getElem_append_right (by simp; omega), List.getElem_append_right (by simp; omega)]
+        simp
+
+/-- state of the label array while the sub-segments of one segment are painted: everything below `base+1+j` final,
+the rest of the segment still carrying the segment's id, the tail untouched -/
+def midState (l : List Nat) (base c j : Nat) (tail : List Int) : List Int :=
+  sortedUpTo l (base + 1 + j) ++ List.replicate (cntLess l (base + c + 1) - cntLess l (base + 1 + j)) (base : Int) ++ tail
+
+theorem subs_fold (l : List Nat) (base c : Nat) (tail : List Int) :
+    ∀ (k j : Nat), j + k = c →
+      ((List.range' j k).map fun j => (3 * cntLess l (base + 1 + j), cntEq l (base + 1 + j))).foldl
+        (fun (st : List Int × Nat) sub => (paint st.1 (sub.1 / 3) sub.2 st.2, st.2 + 1)) (midState l base c j tail, base + 1 + j)
+      = (midState l base c c tail, base + 1 + c) := by
+  intro k
+  induction k with
+  | zero => intro j hj; have : j = c := by omega
+            subst this; rfl
+  | succ k ih =>
+    intro j hj
+    rw [List.range'_succ, List.map_cons, List.foldl_cons]
+    simp only
+    rw [Nat.mul_div_cancel_left _ (by omega : 0 < 3)]
+    have hle : cntLess l (base + 1 + j + 1) ≤ cntLess l (base + c + 1) := cntLess_mono l _ _ (by omega)
+    have hs := cntLess_succ l (base + 1 + j)
+    -- split the "still segment id" region into the part of sub-segment j and the rest
+    have hsplit : midState l base c j tail =
+        sortedUpTo l (base + 1 + j) ++ List.replicate (cntEq l (base + 1 + j)) (base : Int) ++
+          (List.replicate (cntLess l (base + c + 1) - cntLess l (base + 1 + j + 1)) (base : Int) ++ tail) := by
+      unfold midState
+      have e : cntLess l (base + c + 1) - cntLess l (base + 1 + j) =
+          cntEq l (base + 1 + j) + (cntLess l (base + c + 1) - cntLess l (base + 1 + j + 1)) := by omega
+      rw [e]
+      simp only [List.append_assoc, List.append_cancel_left_eq]
+      rw [← List.append_assoc, List.replicate_append_replicate]
+    have hp : paint (midState l base c j tail) (cntLess l (base + 1 + j)) (cntEq l (base + 1 + j)) ((base + 1 + j : Nat) : Int) =
+        midState l base c (j + 1) tail := by
+      rw [hsplit]
+      have := paint_middle (sortedUpTo l (base + 1 + j)) (List.replicate (cntEq l (base + 1 + j)) (base : Int))
+        (List.replicate (cntLess l (base + c + 1) - cntLess l (base + 1 + j + 1)) (base : Int) ++ tail) ((base + 1 + j : Nat) : Int)
+      rw [sortedUpTo_length, List.length_replicate] at this
+      rw [this]
+      unfold midState
+      rw [show base + 1 + (j + 1) = base + 1 + j + 1 by omega, sortedUpTo_succ]
+      simp [List.append_assoc]
+    rw [hp]
+    have := ih (j + 1) (by omega)
+    rw [show base + 1 + (j + 1) = base + 1 + j + 1 by omega] at this
+    exact this
+
+theorem go_spec (l : List Nat) (N : Nat) : ∀ (inf : SegInfo) (base : Nat),
+    cntLess l (base + totalParts inf) ≤ N →
+    getLabels.go (buildSegs l inf base) base (sortedUpTo l base ++ List.replicate (N - cntLess l base) (-1)) =
+      sortedUpTo l (base + totalParts inf) ++ List.replicate (N - cntLess l (base + totalParts inf)) (-1) := by
+  intro inf
+  induction inf with
+  | nil => intro base _; simp [buildSegs, getLabels.go, totalParts]
+  | cons s rest ih =>
+    intro base hN
+    obtain ⟨pid, subs⟩ := s
+    have htp : totalParts ((pid, subs) :: rest) = subs.length + 1 + totalParts rest := by simp [totalParts]
+    rw [htp] at hN ⊢
+    have hm1 : cntLess l (base + subs.length + 1) ≤ cntLess l (base + (subs.length + 1 + totalParts rest)) :=
+      cntLess_mono l _ _ (by omega)
+    have hm0 : cntLess l base ≤ cntLess l (base + subs.length + 1) := cntLess_mono l _ _ (by omega)
+    have hs0 := cntLess_succ l base
+    have hm2 : cntLess l (base + 1) ≤ cntLess l (base + subs.length + 1) := cntLess_mono l _ _ (by omega)
+    simp only [buildSegs, getLabels.go]
+    rw [Nat.mul_div_cancel_left _ (by omega : 0 < 3)]
+    -- the segment paint
+    have hsplit : sortedUpTo l base ++ List.replicate (N - cntLess l base) (-1 : Int) =
+        sortedUpTo l base ++ List.replicate (cntLess l (base + subs.length + 1) - cntLess l base) (-1 : Int) ++
+          List.replicate (N - cntLess l (base + subs.length + 1)) (-1 : Int) := by
+      rw [List.append_assoc, List.replicate_append_replicate]
+      congr 2
+      omega
+    have hpaint : paint (sortedUpTo l base ++ List.replicate (N - cntLess l base) (-1 : Int)) (cntLess l base)
+        (cntLess l (base + subs.length + 1) - cntLess l base) (base : Int) =
+        midState l base subs.length 0 (List.replicate (N - cntLess l (base + subs.length + 1)) (-1 : Int)) := by
+      rw [hsplit]
+      have := paint_middle (sortedUpTo l base) (List.replicate (cntLess l (base + subs.length + 1) - cntLess l base) (-1 : Int))
+        (List.replicate (N - cntLess l (base + subs.length + 1)) (-1 : Int)) (base : Int)
+      rw [sortedUpTo_length, List.length_replicate] at this
+      rw [this]
+      unfold midState
+      rw [show base + 1 + 0 = base + 1 by omega, sortedUpTo_succ]
+      have e : cntLess l (base + subs.length + 1) - cntLess l base =
+          cntEq l base + (cntLess l (base + subs.length + 1) - cntLess l (base + 1)) := by omega
+      rw [e, ← List.replicate_append_replicate]
+      simp only [List.append_assoc]
+    rw [hpaint, List.range_eq_range']
+    have hf := subs_fold l base subs.length (List.replicate (N - cntLess l (base + subs.length + 1)) (-1 : Int)) subs.length 0 (by omega)
+    rw [show base + 1 + 0 = base + 1 by omega] at hf
+    rw [hf]
+    simp only
+    have hmid : midState l base subs.length subs.length (List.replicate (N - cntLess l (base + subs.length + 1)) (-1 : Int)) =
+        sortedUpTo l (base + subs.length + 1) ++ List.replicate (N - cntLess l (base + subs.length + 1)) (-1 : Int) := by
+      unfold midState
+      rw [show base + 1 + subs.length = base + subs.length + 1 by omega]
+      simp
+    rw [hmid, show base + 1 + subs.length = base + subs.length + 1 by omega]
+    have := ih (base + subs.length + 1) (by rw [show base + subs.length + 1 + totalParts rest = base + (subs.length + 1 + totalParts rest) by omega]; exact hN)
+    rw [this, show base + subs.length + 1 + totalParts rest = base + (subs.length + 1 + totalParts rest) by omega]
+
+/-- **get ∘ set = the renumbered labels, sorted.** For every segmentation table and every label list whose (renumbered)
+labels lie inside the table, reading the labels back from the segment table that `SetSegmentation` built gives, for the
+triangles in their new storage order, exactly the new labels in ascending order — each triangle keeps its label. -/
+theorem get_set (l : List Nat) (inf : SegInfo) (h : ∀ x ∈ l, x < totalParts inf) :
+    getLabels (buildSegs l inf 0) l.length = sortedUpTo l (totalParts inf) := by
+  unfold getLabels
+  have := go_spec l l.length inf 0 (by rw [Nat.zero_add, cntLess_all l _ h]; exact Nat.le_refl _)
+  simp only [sortedUpTo, List.range_zero, List.flatMap_nil, List.nil_append, cntLess_zero, Nat.sub_zero, Nat.zero_add] at this
+  rw [this, cntLess_all l _ h, Nat.sub_self]
+  simp [sortedUpTo]
+
+theorem idx_filter_length (q : Nat → Bool) (l : List Nat) :
+    ((List.range l.length).filter fun i => q (l.getD i 0)).length = (l.filter q).length := by
+  induction l with
+  | nil => rfl
+  | cons a l ih =>
+    rw [List.length_cons, List.range_succ_eq_map, List.filter_cons, List.filter_map, List.filter_cons]
+    have h0 : q ((a :: l).getD 0 0) = q a := rfl
+    have hf : ((fun i => q ((a :: l).getD i 0)) ∘ Nat.succ) = fun i => q (l.getD i 0) := by
+      funext i; rfl
+    rw [h0, hf]
+    cases q a <;> simp only [Bool.false_eq_true, if_false, if_true, List.length_map, List.length_cons, ih]
+
+/-- the sorted labels are the labels of the triangles in storage order -/
+theorem sortedUpTo_eq_sorted (l : List Nat) (P : Nat) :
+    sortedUpTo l P = (sortedIndices l P).map fun i => ((l.getD i 0 : Nat) : Int) := by
+  unfold sortedUpTo sortedIndices
+  rw [List.map_flatMap]
+  congr 1
+  funext p
+  symm
+  rw [List.eq_replicate_iff]
+  constructor
+  · simp only [List.length_map]
+    unfold cntEq
+    exact idx_filter_length (fun x => x == p) l
+  · intro x hx
+    obtain ⟨i, hi, rfl⟩ := List.mem_map.1 hx
+    have := (List.mem_filter.1 hi).2
+    simp only [beq_iff_eq] at this
+    rw [this]
+
 end Nifly.Mesh
